@@ -136,6 +136,32 @@ def decode_witness(h, vals):
     return {'scenario': w['scenario'], 'input': inp}
 
 
+def run_group(cmd, env, tmo):
+    """run cargo kani in its own process group; on time-out kill the whole group (cbmc children included)"""
+    import signal
+    import resource
+
+    def limit():
+        # no swap on this machine: a runaway cbmc must fail (-> undecided), not take the box down
+        lim = int(os.environ.get('VERIF_KANI_MEM_GB', '20')) << 30
+        resource.setrlimit(resource.RLIMIT_AS, (lim, lim))
+    p = subprocess.Popen(cmd, cwd=SCRATCH, stdout=subprocess.PIPE, stderr=subprocess.STDOUT, text=True, env=env, start_new_session=True,
+                         preexec_fn=limit)
+    try:
+        out, _ = p.communicate(timeout=tmo)
+        return out
+    except subprocess.TimeoutExpired:
+        try:
+            os.killpg(os.getpgid(p.pid), signal.SIGKILL)
+        except Exception:
+            pass
+        try:
+            out, _ = p.communicate(timeout=30)
+        except Exception:
+            out = ''
+        return (out or '') + '\nTIMEOUT'
+
+
 def run_harnesses(pid, groups, tier, seed):
     t0 = time.time()
     info = {'harnesses': [], 'trusted': [], 'time_s': 0}
@@ -168,13 +194,8 @@ def run_harnesses(pid, groups, tier, seed):
             for g, h in hs:
                 cmd += ['--harness', h['name']]
             env = dict(os.environ, VERIF_DIR=VERIF, CARGO_NET_OFFLINE='true', CARGO_TARGET_DIR=os.path.join(VERIF, 'out', 'kani-target'))
-            tmo = max(h.get('timeout', 600) for g, h in hs) + 300
-            try:
-                p = subprocess.run(cmd, cwd=SCRATCH, capture_output=True, text=True, env=env, timeout=tmo)
-                out = p.stdout + '\n' + p.stderr
-            except subprocess.TimeoutExpired as e:
-                out = (e.stdout or b'').decode('utf8', 'replace') if isinstance(e.stdout, bytes) else (e.stdout or '')
-                out += '\nTIMEOUT'
+            tmo = max(h.get('timeout', 600) for g, h in hs) + 120
+            out = run_group(cmd, env, tmo)
             os.makedirs(os.path.join(VERIF, 'out', 'kani-logs'), exist_ok=True)
             open(os.path.join(VERIF, 'out', 'kani-logs', '%s-%s.log' % (pid, crate)), 'w').write(out)
             parsed = parse_output(out, [h['name'] for g, h in hs])
@@ -197,10 +218,10 @@ def run_harnesses(pid, groups, tier, seed):
                             cmd2 = ['cargo', 'kani', '-p', crate, '-Z', 'function-contracts', '-Z', 'stubbing', '-Z', 'concrete-playback',
                                     '--concrete-playback=print', '--output-format', 'terse', '--harness', h['name']]
                             try:
-                                p2 = subprocess.run(cmd2, cwd=SCRATCH, capture_output=True, text=True, env=env, timeout=h.get('timeout', 600) + 300)
-                                r2 = parse_output(p2.stdout + p2.stderr, [h['name']]).get(h['name'], {})
+                                o2 = run_group(cmd2, env, h.get('timeout', 600) + 300)
+                                r2 = parse_output(o2, [h['name']]).get(h['name'], {})
                                 ent['witness'] = decode_witness(h, r2.get('concrete_vals'))
-                            except subprocess.TimeoutExpired:
+                            except Exception:
                                 pass
                 info['harnesses'].append(ent)
     info['trusted'] = ['kani-compiler 0.68 / CBMC 6.11 (bit-precise; atomics sequential; no threads)',
@@ -211,7 +232,13 @@ def run_harnesses(pid, groups, tier, seed):
 
 if __name__ == '__main__':
     props = json.load(open(os.path.join(VERIF, 'props.json')))
-    r = run_harnesses(sys.argv[1], props[sys.argv[1]]['kani'], sys.argv[2] if len(sys.argv) > 2 else 'quick', 0)
+    groups = props[sys.argv[1]]['kani']
+    if len(sys.argv) > 3:
+        # only the harnesses named on the command line
+        for g in groups:
+            g['harnesses'] = [h for h in g['harnesses'] if h['name'] in sys.argv[3:]]
+        groups = [g for g in groups if g['harnesses']]
+    r = run_harnesses(sys.argv[1], groups, sys.argv[2] if len(sys.argv) > 2 else 'quick', 0)
     for h in r['harnesses']:
         h2 = dict(h)
         t = h2.pop('tail', '')
